@@ -29,7 +29,13 @@ RULE = (
     "programs: (a) purpose-built loop-nest / assign-heavy / text-heavy programs (for, tablerow, "
     "render, render-for, include, include-for, include-with-a-list, macro/call, extends/block with "
     "block.super, captures, assign-only blank blocks, break/continue, CR / CRLF / multi-byte text; "
-    "loop nests of depth <= 4 spanning up to 4 partials), (b) programs of the shared grammar-directed "
+    "loop nests of depth <= 4 spanning up to 4 partials), (a') loops left early: break / continue "
+    "(conditional on the item, the outer variable or data) executed inside partials rendered by include-for / "
+    "include-with-a-list / plain include / a second include level, from inside capture / with / case / if / "
+    "block / tablerow / for, nested in an enclosing for or tablerow and followed on the same context by "
+    "the rest of the iteration, later outer iterations, sibling nests sized close to the program's largest "
+    "product of lengths, tablerow, partials included / rendered afterwards and macros, "
+    "(b) programs of the shared grammar-directed "
     "generator, (c) cyclic graphs of <= 4 templates over include / render / extends / macro / block / "
     "capture / for / tablerow edges, (d) acyclic partial chains of depth 1..7. Each program is "
     "rendered unrestricted, with every limit far above consumption (sync and async), and under "
@@ -48,9 +54,12 @@ ASSUMPTIONS = [
     "a loop nest is a chain of dynamically nested loop constructs identified by template source "
     "and token offset, including the call sites between them; sibling loops and different call "
     "sites are different nests (never merged); the `else` branch of a loop is outside the loop",
-    "'must succeed' for loops is demanded only when L >= the product of the observed iteration "
-    "counts of every enclosing loop and the program contains no break (the engine documents "
-    "counting by declared lengths); for output only when L >= the peak over buffers of bytes "
+    "'must succeed' for loops is demanded when L >= M, the largest product of the DECLARED lengths of "
+    "dynamically nested loop activations in the unrestricted run (the engine documents counting by "
+    "declared lengths up front); the declared length of an activation is the argument of the engine's "
+    "own raise_for_loop_limit call on entry (hooked), never less than the bodies actually run, so the "
+    "rule also covers loops left early by break / continue; L in {M, M+1, 3M} must give the "
+    "unrestricted output; for output only when L >= the peak over buffers of bytes "
     "written plus the bytes of the parent buffer at creation (what get_output_buffer carries)",
     "the statement bounds the *returned* output; for capture buffers only the engine's own one-level "
     "carry is checked (bytes written <= limit - parent bytes at creation). Renders in which the bytes "
@@ -616,7 +625,7 @@ def minimise(rn: Runner, prog: dict[str, Any], cls: str, ex: dict[str, Any]):
 def shards(tier: str, seed: int) -> list[dict[str, Any]]:
     # (kind, number of shards, cases per shard); thorough = 20 x the quick volume
     if tier == "quick":
-        plan = [("nest", 12, 58), ("ns", 6, 32), ("out", 6, 32), ("intr", 4, 45), ("shared", 2, 90), ("cycle", 2, 260),
+        plan = [("nest", 12, 52), ("ns", 6, 30), ("out", 6, 30), ("intr", 4, 45), ("shared", 2, 90), ("cycle", 2, 260),
                 ("chain", 2, 170)]
     else:
         plan = [("nest", 24, 580), ("ns", 6, 640), ("out", 6, 640), ("intr", 6, 600), ("shared", 4, 900),
